@@ -1,0 +1,14 @@
+//go:build verif
+
+package core
+
+// VerifHook, when set by a verification harness, is called at named points of
+// the code (see the verifAt call sites); it may block to hold the calling
+// goroutine at that point. It must be set before the sandbox is started.
+var VerifHook func(point string)
+
+func verifAt(point string) {
+	if h := VerifHook; h != nil {
+		h(point)
+	}
+}
